@@ -13,9 +13,10 @@ import Verif.Model.Common
   * `parse`                 `smallscep.ParsePKIMessage`: pkcs7 parse+verify, the transactionID and messageType
                             attributes (input fields), then `parseMessageType`.
   * `decrypt`               `DecryptPKIEnvelope`: inner pkcs7 parse, decryption (input fields), the dispatch.
-                            A `CertRep` request reaches `msg.CertRepMessage.Certificate = certs[0]` where
-                            `msg.CertRepMessage` is the nil embedded pointer of `scep.PKIMessage`
-                            (and `certs` may be empty): `crash`.
+                            Before commit 1587447 a `CertRep` request reached
+                            `msg.CertRepMessage.Certificate = certs[0]` where `msg.CertRepMessage` is the nil
+                            embedded pointer of `scep.PKIMessage` (and `certs` may be empty): `crash`
+                            (tables `asCodedBefore`); now that case returns an error.
   * `challengeHooks`        `newChallengeValidationController` (kind SCEPCHALLENGE, certificate type X509/ALL/unset).
   * `selectValidationMethod`, `validateChallenge`, `runHooks`
                             authority/provisioner/scep.go `selectValidationMethod`, `ValidateChallenge`
@@ -70,9 +71,22 @@ structure Facts where
   checkAll : Bool
   deriving Repr, DecidableEq
 
-/-- The tree as it stands (pinned snapshot). Lists are sorted as the extractor prints them.
-    To mirror a repaired `PKIOperation` change `checked` (e.g. to `[tRenewalReq, tUpdateReq, tPKCSReq]`). -/
+/-- The tree as it stands (after the two `fix:` commits 3a8a2fc and 1587447). Lists are sorted as the
+    extractor prints them (Go's `sort.Strings`, hence "3" last). -/
 def asCoded : Facts where
+  parsedCertRep := [tCertRep]
+  parsedCsr := [tRenewalReq, tUpdateReq, tPKCSReq]
+  parsedRej := [tCertPoll, tGetCert, tGetCRL]
+  decCertRep := []
+  decCsr := [tRenewalReq, tUpdateReq, tPKCSReq]
+  decErr := [tCertPoll, tGetCert, tGetCRL, tCertRep]
+  decDefaultErr := false
+  checked := [tRenewalReq, tUpdateReq, tPKCSReq]
+  checkAll := false
+
+/-- Historic: the tables of the tree before 3a8a2fc (D4: `UpdateReq` not in the challenge condition)
+    and 1587447 (D5: the `CertRep` case of `DecryptPKIEnvelope` wrote through a nil pointer). -/
+def asCodedBefore : Facts where
   parsedCertRep := [tCertRep]
   parsedCsr := [tRenewalReq, tUpdateReq, tPKCSReq]
   parsedRej := [tCertPoll, tGetCert, tGetCRL]
@@ -83,10 +97,10 @@ def asCoded : Facts where
   checked := [tRenewalReq, tPKCSReq]
   checkAll := false
 
-/-- The repaired condition: validate the challenge for every type that yields a CSR. -/
+/-- The repair of D4 in general form: validate the challenge for every type that yields a CSR. -/
 def withCheckOnEveryCsrType (F : Facts) : Facts := { F with checked := F.decCsr }
 
-/-- The repaired dispatch for D5: the `CertRep` case of `DecryptPKIEnvelope` returns an error. -/
+/-- The repair of D5 in general form: the `CertRep` case of `DecryptPKIEnvelope` returns an error. -/
 def withCertRepRefused (F : Facts) : Facts :=
   { F with decCertRep := [], decErr := F.decErr ++ F.decCertRep }
 
